@@ -253,8 +253,7 @@ def run(ctx):
         traces.append([ev])
         cases.append({"kind": "tlc-behaviour", "s": text(ev["s"])})
     ctx.extra["tlc_behaviours_not_reproduced"] = len(mism)
-    for part_t, part_c in zip(chunks(traces, 20000), chunks(cases, 20000)):
-        ctx.validate(SPEC, "TokenizerTrace", "TokenizerTrace.cfg", part_t, cases=part_c, name="recorded-calls")
+    ctx.validate(SPEC, "TokenizerTrace", "TokenizerTrace.cfg", traces, cases=cases, name="recorded-calls")
     ctx.sample(cases[0])
 
 
